@@ -288,17 +288,39 @@ def runAll (now : Nat) : List Cb → List (Nat × Nat) → List (Nat × Nat) × 
      c.raises || (runAll now rest (log ++ (c.id, now) :: c.adds.map (fun a => (a, now)))).2)
 
 /-- `AsyncResult.__call__(is_exc, obj)` with such callbacks.  `allRun` is measured on the source
-(`Gen.Async.callbacksAllRun`):
+(`Gen.Async.callbacksAllRun`); `propagates`
+(`Gen.Async.callbackErrorPropagates`, also measured) says whether a callback's error leaves `__call__`:
 * `true`: the list is copied and cleared, every callback runs in order, the first error is re-raised after the
   loop;
 * `false`: the loop stops at the first callback that raises — the value has been published and the result is
   ready, the callbacks after it are not run, and `del self._callbacks[:]` is not reached (the whole list stays
   stored and is never run again: the registry entry is gone). -/
-def callR (allRun : Bool) (expired : Bool) (now : Nat) (cbs : List Cb) (isExc : Bool) (v : Nat) : CallOut :=
+def callR (allRun : Bool) (propagates : Bool) (expired : Bool) (now : Nat) (cbs : List Cb) (isExc : Bool) (v : Nat) :
+    CallOut :=
   if expired then ⟨false, none, none, [], cbs.map Cb.id, false⟩
-  else if allRun then ⟨true, some isExc, some v, (runAll now cbs []).1, [], (runAll now cbs []).2⟩
+  else if allRun then ⟨true, some isExc, some v, (runAll now cbs []).1, [], propagates && (runAll now cbs []).2⟩
   else if (runCbs now cbs []).2 then ⟨true, some isExc, some v, (runCbs now cbs []).1, cbs.map Cb.id, true⟩
   else ⟨true, some isExc, some v, (runCbs now cbs []).1, [], false⟩
+
+/-! ### a registration racing with the publication (another thread delivers the reply)
+
+`add_callback` is two steps: it tests `_is_ready`, then appends (or runs the callback).  When the reply is
+published by another thread (a `BgServingThread`) between the two, what happens depends on whether the two
+steps and `__call__`'s "set ready + take the list" exclude each other (`atomic`, measured on the source). -/
+
+/-- `add_callback(c)` on this thread with the reply `(isExc, v)` delivered by another thread right after the test
+of `_is_ready`:
+* `atomic`: the publisher has to wait until the registration is complete — the outcome is the serial order
+  "register, then publish";
+* not `atomic`: the test said "not ready", the publication runs and clears the list, then `c` is appended to it:
+  stored for ever, never run.
+When the test says "ready" the callback simply runs at once (and the reply, a duplicate, is ignored). -/
+def addCallbackRace (atomic : Bool) (w : World) (c : Nat) (isExc : Bool) (v : Nat) : World :=
+  if w.ar.isReady || atomic then dispatch (addCallback w c) (.reply w.seq isExc v)
+  else
+    { dispatch w (.reply w.seq isExc v) with
+      ar := { (dispatch w (.reply w.seq isExc v)).ar with
+              callbacks := (dispatch w (.reply w.seq isExc v)).ar.callbacks ++ [c] } }
 
 /-- `helpers.timed`: the wrapper keeps the *timeout value* (`self.timeout = timeout`), not a deadline; the
 deadline of each result is computed when that call is made -/
